@@ -3,6 +3,9 @@ import MidnightZK.Model.C10.Field
 import MidnightZK.Model.C10.Mont
 import MidnightZK.Model.C10.Consts
 import MidnightZK.Gen.C10Constants
+import MidnightZK.Gen.C10K256Wrapper
+import MidnightZK.Model.C10.Batch
+import MidnightZK.Proofs.C10.Batch
 import MidnightZK.Proofs.C10.Limbs
 import MidnightZK.Proofs.C10.Mont
 import MidnightZK.Proofs.C10.Field
@@ -236,6 +239,139 @@ theorem c25519_lex_largest_defect :
     lexLargestC c25519Params half (mont ((c25519FpP - 1) / 2 - 1)) = false ∧
     lexLargestC c25519Params half (mont 0) = false ∧
     lexLargestC c25519Params half (mont (c25519FpP - 1)) = true := by
+  decide +kernel
+
+/-! ## Batched and in-place entry points -/
+
+/-- `Sum` / `Sum<&T>` of every exported field type (`iter.fold(ZERO, |acc, x| acc + x)` with the
+type's own reducing `+`; `k256/base_field.rs`, `curve25519/fp.rs`, `impl_sum!`, `impl_sum_prod!`):
+for every list, of any length, the fold is the sum of the integers modulo `p`. -/
+theorem sum_spec (p : Nat) (hp : 0 < p) (l : List Nat) : sumFold p l = l.sum % p :=
+  sumFold_eq p hp l
+
+/-- `Product` / `Product<&T>`: for every list the fold is the product of the integers modulo `p`. -/
+theorem product_spec (p : Nat) (hp : 0 < p) (l : List Nat) : productFold p l = natProd l % p :=
+  productFold_eq p hp l
+
+/-- Non-vacuity: 3000 copies of `p - 1` modulo the secp256k1 base-field prime sum to `p - 3000`
+(the list of seeded defect C10-2, which wraps k256's lazy limbs). -/
+example : sumFold secp256k1P (List.replicate 3000 (secp256k1P - 1)) = secp256k1P - 3000 := by
+  decide +kernel
+
+/-- `ff::BatchInvert::batch_invert` / `ff::BatchInverter::invert_with_external_scratch`
+(Montgomery's trick as written in ff-0.13: forward running product that skips zeros, one
+inversion, backward unwinding): over ANY field and for EVERY list, each non-zero entry is replaced
+by its inverse, zero entries are left alone, and the returned value is the inverse of the product
+of the non-zero entries. -/
+theorem batch_invert_spec {F : Type} [Lean.Grind.Field F] (isZero : F → Bool)
+    (hz : ∀ x, isZero x = true ↔ x = 0) (l : List F) :
+    (batchInvGen (· * ·) (·⁻¹) isZero 1 l).1 = l.map (fun x => if isZero x then x else x⁻¹) ∧
+    (batchInvGen (· * ·) (·⁻¹) isZero 1 l).2.2 = (prodSkipZero isZero 1 l)⁻¹ := by
+  have h1 : (1 : F) ≠ 0 := fun h => Lean.Grind.Field.zero_ne_one h.symm
+  rw [batchInvGen_field isZero hz l 1 h1]
+  exact ⟨rfl, rfl⟩
+
+/-- Non-vacuity (the executable instance the driver runs, modulo 7): `[3, 0, 5] ↦ [5, 0, 3]`,
+`allinv = (3·5)⁻¹ = 1`. -/
+example : batchInvertTrick 7 [3, 0, 5] = ([5, 0, 3], 1) := by decide +kernel
+
+/-- In-place chains (`x += y`, `x *= y`, `x = x.double()`, `x = x.square()` repeated `n` times
+without any intermediate serialisation — what the harness runs 5000 times on every field type):
+the model's chain equals the closed form `x + n·y`, `x·yⁿ`, `x·2ⁿ`, `x^(2ⁿ)` modulo `p`, for every
+`n`, `x`, `y`. -/
+theorem inplace_chain_spec (p y n x : Nat) :
+    (∃ r, runChainProg p y ['a'] n 0 x = some r ∧ r % p = (x + n * y) % p) ∧
+    (∃ r, runChainProg p y ['m'] n 0 x = some r ∧ r % p = (x * y ^ n) % p) ∧
+    (∃ r, runChainProg p y ['d'] n 0 x = some r ∧ r % p = (x * 2 ^ n) % p) ∧
+    (∃ r, runChainProg p y ['q'] n 0 x = some r ∧ r % p = (x ^ 2 ^ n) % p) :=
+  ⟨⟨_, runChain_single p y 'a' _ (fun _ => by simp [chainStep]) n 0 x, repeat_add_closed p y n x⟩,
+   ⟨_, runChain_single p y 'm' _ (fun _ => by simp [chainStep]) n 0 x, repeat_mul_closed p y n x⟩,
+   ⟨_, runChain_single p y 'd' _ (fun _ => by simp [chainStep]) n 0 x, repeat_double_closed p n x⟩,
+   ⟨_, runChain_single p y 'q' _ (fun _ => by simp [chainStep]) n 0 x, repeat_square_closed p n x⟩⟩
+
+/-! ## Normalisation discipline of the secp256k1 base-field wrapper -/
+
+/-- `k256/base_field.rs` (method bodies re-parsed from the source on every run): every method
+except the constructor from a caller-supplied `k256::FieldElement` is *safe* — on the weakly
+normalised values the wrapper stores (magnitude ≤ 1, normalised or not: results of `invert`,
+`sqrt`, `sqrt_ratio`, `conditional_select`) no magnitude / normalisation requirement of k256 can
+be violated, predicates and comparisons only ever see normalised values, and the stored result
+has magnitude ≤ 1 again; and `Sum` (a fold of the normalising `+`) never exceeds magnitude 1
+whatever the length. A method that stops normalising, or a `Sum`/`Product` that accumulates on
+the lazy inner type, is classified `unknown` by the translator and breaks this theorem. -/
+theorem k256_wrapper_normalisation_discipline :
+    (Gen.K256Wrapper.bodies.filter (fun r => !(KBody.ofGen r).safe)).map (·.1) =
+      ["From<k256::FieldElement>::from"] ∧
+    (Gen.K256Wrapper.bodies.filter (fun r => r.2.1 = "foldOp")).map (·.1) =
+      ["Sum::sum", "Sum<&Fp>::sum", "Product::product", "Product<&Fp>::product"] ∧
+    ∀ n acc, acc.mag ≤ 1 → ∃ r, kFoldNormalising n acc = some r ∧ r.mag ≤ 1 :=
+  ⟨by decide +kernel, by decide +kernel, kFoldNormalising_ok⟩
+
+/-- Why seeded defect C10-2 is a defect: accumulating `n + 1` terms on the lazy inner type
+(`k256::FieldElement::sum`) and normalising once violates k256's magnitude bound exactly when
+`n + 1 > 2047`. -/
+theorem k256_lazy_sum_overflows (n : Nat) (b : Bool) :
+    kFoldLazy n ⟨1, b⟩ = none ↔ 2047 ≤ n := by
+  rw [kFoldLazy_none_iff n ⟨1, b⟩ (show (1 : Nat) ≤ 2047 by decide)]
+  show 2047 < 1 + n ↔ 2047 ≤ n
+  omega
+
+/-- KNOWN FINDING (`k256.Fp:from-unnormalized`): `impl From<k256::FieldElement> for Fp` stores the
+caller's lazily reduced element without normalising it; on a magnitude-2 value (`a + a`) the
+wrapper's `-x`, `y - x` and, from magnitude 9, `x * y` violate k256's requirements (`none`),
+while `x + y` is still fine. -/
+theorem k256_from_unnormalized_defect :
+    (Gen.K256Wrapper.bodies.filter (fun r => r.2.1 = "foreign")).map (·.1) =
+      ["From<k256::FieldElement>::from"] ∧
+    (KBody.normUn "neg").run ⟨2, false⟩ ⟨1, true⟩ = none ∧
+    (KBody.normBin "-").run ⟨1, true⟩ ⟨2, false⟩ = none ∧
+    (KBody.normBin "*").run ⟨9, false⟩ ⟨1, true⟩ = none ∧
+    (KBody.normBin "+").run ⟨2, false⟩ ⟨1, true⟩ = some ⟨1, true⟩ := by decide +kernel
+
+/-! ## Square root of the Curve25519 base field -/
+
+/-- `curve25519/fp.rs: fn sqrt` (`p ≡ 5 (mod 8)`, Algorithm 3 of eprint 2012/685), over any
+commutative ring: given the constant fact `4·T_SQRT⁴ = -1` (`= 2^((p-1)/2)`, kernel-checked below
+on the constant parsed from the source) and `a0 = (a1²·a)² = 1` (Euler's criterion for a non-zero
+residue, `a1 = a^((p-5)/8)`), the value returned squares to the input; and when `a0 = -1`
+(non-residue) the function returns `None`. PARTIAL: `a0 ∈ {0, 1, -1}` and `a0 = 1 ↔ a` is a
+non-zero square need primality of `2^255 - 19` and Euler's criterion, which are not proved here
+(the value correspondence `lf C25519Fp sqrt` / `pf C25519Fp sqrt` covers the classes). -/
+theorem c25519_sqrt_spec_partial {R : Type} [Lean.Grind.CommRing R] [DecidableEq R] (t a a1 : R)
+    (ht : 4 * (t * t * t * t) = -1) :
+    (∀ x, (a1 * a1 * a) * (a1 * a1 * a) = 1 →
+      c25519SqrtGen (· * ·) (fun y => y * y) (· + ·) (· - ·) (- ·) 1 t a a1 = some x → x * x = a) ∧
+    ((a1 * a1 * a) * (a1 * a1 * a) = -1 →
+      c25519SqrtGen (· * ·) (fun y => y * y) (· + ·) (· - ·) (- ·) 1 t a a1 = none) := by
+  constructor
+  · intro x ha0 hx
+    unfold c25519SqrtGen at hx
+    simp only at hx
+    split at hx
+    · exact absurd hx (by simp)
+    · have hx' : x = a * (t * a1) * (2 * a * (t * a1) * (t * a1) - 1) := by
+        have := Option.some.inj hx
+        rw [← this]; grind
+      have hi : (2 * a * (t * a1) * (t * a1)) * (2 * a * (t * a1) * (t * a1)) = -1 := by
+        have e : (2 * a * (t * a1) * (t * a1)) * (2 * a * (t * a1) * (t * a1)) =
+            (4 * (t * t * t * t)) * ((a1 * a1 * a) * (a1 * a1 * a)) := by grind
+        rw [e, ht, ha0]; grind
+      rw [hx']
+      exact sqrt58_algebra a (t * a1) hi
+  · intro ha0
+    unfold c25519SqrtGen
+    simp only
+    rw [if_pos ha0]
+
+/-- Non-vacuity in `ℤ/5` (`5 ≡ 5 (mod 8)`, `t = 1`: `4·t⁴ = -1`; `a = 4`, `a1 = 4^0 = 1`,
+`a0 = 16 = 1`): the function returns `3`, and `3² = 4`. -/
+example : c25519SqrtGen (· * ·) (fun y => y * y) (· + ·) (· - ·) (- ·) (1 : Fin 5) 1 4 1 = some 3 := by
+  decide
+
+/-- The constant fact used above, on the literal of `curve25519/fp.rs: T_SQRT`:
+`4·T_SQRT⁴ ≡ -1 (mod p)`. -/
+theorem c25519_sqrt_constant :
+    mulMod 4 (powMod (limbsVal Gen.C25519Fp.T_SQRT_RAW) 4 c25519FpP) c25519FpP = c25519FpP - 1 := by
   decide +kernel
 
 /-! ## Extension towers: the formulas are the products of the quotient rings -/
